@@ -242,9 +242,19 @@ def real_socket_case(ctx, flavour, pkts, stream, k, rng):
             c = rng.choice([1, 5, 6, 7, 20, 300, 4096])
             msgs.append(stream[pos:pos + c])
             pos += c
-    a.settimeout(30)
-    for m in msgs:
-        a.sendall(m) if flavour == "blocking-stream" else a.send(m)     # all of it is in the kernel's buffer before the framer starts
+    a.settimeout(120)
+    feeder = None
+    if flavour == "blocking-stream":
+        a.sendall(stream)            # a few kB: all of it is in the kernel's buffer before the framer starts
+    else:
+        def feed():                  # the kernel queues only so many datagrams: the sender may have to wait for the reader
+            try:
+                for m in msgs:
+                    a.send(m)
+            except OSError:
+                pass
+        feeder = threading.Thread(target=feed, daemon=True)
+        feeder.start()
     got, err = [], []
 
     def consume():
@@ -257,15 +267,19 @@ def real_socket_case(ctx, flavour, pkts, stream, k, rng):
 
     t = threading.Thread(target=consume, daemon=True)
     t.start()
-    t.join(60)                      # generous watchdog: every byte was delivered before the framer started
+    t.join(60 if flavour == "blocking-stream" else 150)    # generous watchdog (blocking flavour: every byte was delivered before the framer started)
     hung, n_before = t.is_alive(), len(got)
     a.close()                       # lets a blocked recv() return
     t.join(10)
     b.close()
+    if feeder is not None:
+        feeder.join(10)
     ctx.count("evaluations")
     ctx.count(f"kind.realsocket.{flavour}")
     wit = {"flavour": flavour, "k": k, "n_packets": len(pkts), "stream_len": len(stream), "messages": [len(m) for m in msgs][:40]}
-    if hung:
+    if hung and flavour != "blocking-stream":
+        ctx.note(f"{flavour} socket case not finished after 150 s (n={len(pkts)}, {len(msgs)} messages): not judged")
+    elif hung:
         ctx.violation(f"socket/{flavour}/blocked-although-delivered", f"{n_before} of {len(pkts)} fully delivered packets came out of a {flavour} socket whose peer "
                       "keeps the connection open; the framer was still waiting after 60 s", wit)
     elif err or got != pkts:
